@@ -736,6 +736,7 @@ def run(rep):
                                      'documented semantics evaluated on the implementation output found no failing input',
                        'disagreements': tot['corr'], 'examples': corr_bad}, False)
     seqstats, nonregstats = process_stage(rep, sc, random.Random(rep.seed + 1))
+    import isolation; rep.coverage['isolation'] = isolation.stage(rep, proc.Tools(sc), 'C03')     # nothing leaks from one message / maildir / rule into the next (tools/isolation.py)
     vlib.lean_conclude(rep)
     rep.coverage.update({
         'evaluations': count['total'] + seqstats['runs'] + nonregstats['runs'],
@@ -789,6 +790,9 @@ def run(rep):
 
 
 def replay(rep, path):
+    import isolation
+    if isolation.replay_file(rep, path):
+        return
     import json
     j = json.load(open(path))
     sc = vlib.Scratch()
